@@ -219,7 +219,7 @@ def run(ctx):
 
     def fn_named(pat):
         for f in fns:
-            if re.search(pat, P.dm(f.name)):
+            if re.search(pat, P.dm(f.name)) and "::$_" not in P.dm(f.name) and "{lambda" not in P.dm(f.name):
                 return f
         raise AnalysisBroken("anchor vanished: function %s in thread-link.cpp" % pat)
 
